@@ -309,13 +309,13 @@ Definition parse_ip6 (c : cfg) (s : slice) (f : frame) : res frame :=
   parse_proto s f proto.
 
 (* case ETH_P_ARP (layer_frame.go:235-259):
-     if arp = frame.Payload(); len(arp) < 28 && arp[4] != 6 { return frame, ErrParseFrame }
+     if arp = frame.Payload(); len(arp) < 28 || arp[4] != 6 { return frame, ErrParseFrame }
      srcIP := netip.AddrFrom4 of the array conversion of arp[14:18]      -- slice expression: capacity check
      ... Addr{MAC: arp[8:14], IP: srcIP} offered to the host table *)
 Definition parse_arp (c : cfg) (s : slice) (f : frame) : res frame :=
   let f := set_id f PayloadARP in
   arp <- payload_view s f ;;
-  bad <- (if Nat.ltb (len arp) 28 then b <- idx arp 4 ;; Ok (negb (b =? 6)) else Ok false) ;;
+  bad <- (if Nat.ltb (len arp) 28 then Ok true else b <- idx arp 4 ;; Ok (negb (b =? 6))) ;;
   if bad then Err EParseFrame else
   sip <- bytes_at arp 14 18 ;;
   host <- (if gate4 c (a_mac (f_src f)) sip
@@ -335,6 +335,7 @@ Definition parse (c : cfg) (s : slice) : res frame :=
   smac <- ether_src s ;;
   dmac <- ether_dst s ;;
   hl <- ether_header_len s ;;
+  if Nat.ltb (len s) hl then Err EFrameLen else        (* tagged header longer than the frame: ErrFrameLen (sentinel) *)
   let f := mkFrame 0 0 0 0 hl PayloadEther (mkAddr smac [] 0) (mkAddr dmac [] 0) None None in
   if negb (is_unicast_mac smac) then Ok f else
   et <- ether_type s ;;
